@@ -52,12 +52,102 @@ def skeleton(cls):
     return tuple(e if isinstance(e, str) else "<>" for e in cls.syntax.syntax if not (isinstance(e, str) and e.isspace()))
 
 
+def keyword_labels(arch, thorough=False):
+    """label names spelled like keywords of the same ISA's assembler (register names and aliases,
+    mnemonics, other keywords): with a digit, with an underscore, purely alphabetic.  ppci's assembler
+    explicitly allows keywords as identifiers (BaseAssembler.add_keyword)."""
+    import re
+
+    try:
+        kws = sorted(k for k in arch.assembler.lexer.kws if re.fullmatch(r"[a-z_][a-z0-9_]*", k))
+    except Exception:
+        return []
+    digit = [k for k in kws if any(c.isdigit() for c in k)]
+    under = [k for k in kws if "_" in k]
+    alpha = [k for k in kws if k.isalpha() and len(k) > 1]
+    out = []
+
+    def take(lst, n):
+        if not lst:
+            return
+        step = max(1, len(lst) // n)
+        for k in lst[::step][:n]:
+            if k not in out:
+                out.append(k)
+
+    take(digit, 3 if thorough else 2)
+    take(under, 2 if thorough else 1)
+    take(alpha, 3 if thorough else 2)
+    return out
+
+
+def register_names(arch):
+    """lower-case names and aliases of every register an instruction operand of the ISA can take"""
+    from ppci.arch.registers import Register
+
+    names = set()
+
+    def visit(t, depth=0):
+        if isinstance(t, tuple):
+            for x in t:
+                visit(x, depth)
+        elif isinstance(t, type) and issubclass(t, Register):
+            try:
+                for r in t.all_registers():
+                    names.add(str(r.name).lower())
+                    for a in getattr(r, "aka", ()) or ():
+                        names.add(str(a).lower())
+            except Exception:
+                pass
+        elif isinstance(t, type) and getattr(t, "syntax", None) is not None and depth < 3:
+            for f in t.syntax.formal_arguments:
+                visit(f._cls, depth + 1)
+
+    for c in classes_of(arch):
+        for f in c.syntax.formal_arguments:
+            visit(f._cls)
+    return names
+
+
+def ambiguous_operand(ins):
+    """input feature: an operand of the instance is built by a constructor class whose syntax skeleton
+    is also the skeleton of another alternative of the same operand (the printed operand does not say
+    which alternative it is, e.g. msp430 '#4' = constant generator or immediate)"""
+    from ppci.arch.encoding import Constructor
+
+    try:
+        for f in ins.syntax.formal_arguments:
+            v = getattr(ins, f._name)
+            if isinstance(f._cls, tuple) and isinstance(v, Constructor):
+                for t in f._cls:
+                    if t is not type(v) and getattr(t, "syntax", None) is not None and skeleton(t) == skeleton(type(v)):
+                        return True
+    except Exception:
+        return False
+    return False
+
+
+def clone(v):
+    """a fresh copy of a nested operand constructor (pool values are shared between instances)"""
+    from ppci.arch.encoding import Constructor
+
+    if isinstance(v, Constructor) and getattr(v, "syntax", None) is not None:
+        return type(v)(*[clone(getattr(v, f._name)) for f in v.syntax.formal_arguments])
+    return v
+
+
 class Pools:
     """candidate values per operand type"""
 
-    def __init__(self, rng, nints=14):
+    def __init__(self, rng, nints=14, labels=(), regnames=()):
         self.rng = rng
         self.nints = nints
+        # top-level label operands: any keyword spelling; label operands inside a nested operand
+        # constructor (where a register is usually an alternative reading of the same text): only
+        # spellings that are not register names
+        self.labels = [LABEL] + [x for x in labels if x != LABEL]
+        self.nested_labels = [x for x in self.labels if x not in regnames]
+        self.regnames = set(regnames)
         self._ctor = {}
 
     def values(self, typ, depth=0):
@@ -80,7 +170,7 @@ class Pools:
             extra = [self.rng.randrange(-(1 << 15), 1 << 16) for _ in range(3)]
             return INT_POOL + extra
         if typ is str:
-            return [LABEL]
+            return list(self.labels if depth == 0 else self.nested_labels)
         if issubclass(typ, Constructor):
             if depth > 2:
                 return []
@@ -129,12 +219,14 @@ def observe(ins, printer=None):
     return text, list(data), rels
 
 
-def instances(cls, pools, rng, limit, printer=None):
+def instances(cls, pools, rng, limit, printer=None, plain_labels=False):
     """up to `limit` distinct instances [(text, bytes, relocs)] of the class: a base tuple, then every
     operand varied alone through its pool (each register, each boundary integer), then random tuples.
     Also returns how many tuples were tried and rejected by the class itself."""
     fargs = cls.syntax.formal_arguments
     plist = [pools.values(f._cls) for f in fargs]
+    if plain_labels:   # the class shares its syntax with another one: no register-spelled labels
+        plist = [[v for v in p if not (isinstance(v, str) and v in pools.regnames)] for p in plist]
     if any(not p for p in plist):
         return None, 0                       # an operand kind that cannot be built generically
     out = []
@@ -154,7 +246,7 @@ def instances(cls, pools, rng, limit, printer=None):
         if ob[0] in seen:
             return True
         seen.add(ob[0])
-        out.append(ob)
+        out.append({"text": ob[0], "bytes": ob[1], "relocs": ob[2], "how": "", "amb": ambiguous_operand(ins)})
         return True
 
     if not fargs:
@@ -187,6 +279,64 @@ def instances(cls, pools, rng, limit, printer=None):
         tries += 1
         attempt([rng.choice(p) for p in plist])
     return out[:limit], rejected[0]
+
+
+def mutated_instances(cls, pools, rng, limit, printer=None):
+    """instances observed AFTER a mutation sequence on a live instruction object: construct, print and
+    encode it once (s0), change one operand inside a nested operand constructor (addressing mode, shift,
+    src / dst) through the public setter or Instruction.replace_register, then print / encode again.
+    Returns [(text after, bytes after, relocs after, description)]; the law is judged on the object as
+    it is after the mutation."""
+    from ppci.arch.encoding import Constructor
+    from ppci.arch.registers import Register
+
+    fargs = cls.syntax.formal_arguments
+    plist = [pools.values(f._cls) for f in fargs]
+    if any(not p for p in plist):
+        return []
+    nested = [k for k, p in enumerate(plist) if any(isinstance(v, Constructor) for v in p)]
+    if not nested:
+        return []
+    out = []
+    seen = set()
+    tries = 0
+    while len(out) < limit and tries < 12 * limit:
+        tries += 1
+        args = [clone(rng.choice(p)) for p in plist]
+        cands = [k for k in nested if isinstance(args[k], Constructor) and args[k].syntax.formal_arguments]
+        if not cands:
+            continue
+        try:
+            ins = cls(*args)
+            s0 = printer.print_instruction(ins) if printer is not None else str(ins)
+            ins.encode()
+            ins.relocations()
+        except Exception:
+            continue
+        c = args[rng.choice(cands)]
+        f = rng.choice(c.syntax.formal_arguments)
+        pool = pools.values(f._cls, 1)          # an operand inside a nested constructor
+        try:
+            old = getattr(c, f._name)
+            new = [v for v in pool if str(v) != str(old)]
+            if not new:
+                continue
+            v = clone(rng.choice(new))
+            if isinstance(old, Register) and isinstance(v, Register) and rng.random() < 0.5:
+                ins.replace_register(old, v)
+                how = "replace_register(%s, %s)" % (old, v)
+            else:
+                setattr(c, f._name, v)
+                how = "%s.%s = %s" % (type(c).__name__, f._name, v)
+        except Exception:
+            continue
+        ob = observe(ins, printer)
+        if ob is None or ob[0] in seen:
+            continue
+        seen.add(ob[0])
+        out.append({"text": ob[0], "bytes": ob[1], "relocs": ob[2], "amb": ambiguous_operand(ins),
+                    "how": "printed '%s', encoded, then %s" % (s0, how)})
+    return out
 
 
 def project_asm(obj):
@@ -227,24 +377,24 @@ def assemble_class(obs, arch):
     and relocations, shifted by the instances' offsets), else one call per instance.  Returns the
     per-instance observations of the assembler."""
     if len(obs) > 1:
-        batch = assemble("\n".join(o[0] for o in obs), arch)
+        batch = assemble("\n".join(o["text"] for o in obs), arch)
         if batch["ok"]:
             exp_bytes = []
             exp_rels = []
-            for text, data, rels in obs:
-                for r in rels:
+            for o in obs:
+                for r in o["relocs"]:
                     exp_rels.append([r[0], r[1], r[2] + len(exp_bytes), r[3]])
-                exp_bytes.extend(data)
+                exp_bytes.extend(o["bytes"])
             if batch["bytes"] == exp_bytes and sorted(batch["relocs"]) == sorted(exp_rels):
                 # attribution by the offsets the instances occupy in the batch (a split, not a verdict:
                 # TLC still compares every slice with the direct encoding)
                 res = []
                 pos = 0
-                for text, data, rels in obs:
-                    n = len(data)
+                for o in obs:
+                    n = len(o["bytes"])
                     res.append({"ok": True, "exc": "", "bytes": batch["bytes"][pos:pos + n],
                                 "relocs": [[r[0], r[1], r[2] - pos, r[3]] for r in batch["relocs"]
                                            if pos <= r[2] < pos + max(n, 1)]})
                     pos += n
                 return res
-    return [assemble(o[0], arch) for o in obs]
+    return [assemble(o["text"], arch) for o in obs]
